@@ -396,6 +396,13 @@ def Cause.isError : Cause → Bool
   | .eof => false
   | _ => true
 
+/-! ### connection identity: `peer_id_counter.fetch_add(1)` -/
+
+/-- The ids handed to `n` connections by `n` atomic `fetch_add(1)` on a counter standing at `c`, in the
+order the read-modify-writes take effect (whatever the interleaving of the connection tasks, each
+`fetch_add` is one indivisible step, so the outcomes are exactly these, assigned in some order). -/
+def mintIds (c n : Nat) : List Nat := List.range' c n
+
 /-! ### expected shapes -/
 
 def connects (k : Nat) : List Ev := (List.range k).map .connect
